@@ -20,7 +20,7 @@ import logging
 import asyncio as aio
 from typing import Any
 from collections.abc import Awaitable, Coroutine
-from .utils import gen_nonce
+from .utils import gen_nonce, timestamp
 from .encoding import BinaryStr, TypeNumber, LpTypeNumber, parse_interest, \
     parse_tl_num, parse_data, DecodeError, Name, NonStrictName, MetaInfo, \
     make_data, InterestParam, make_interest, FormalName, SignaturePtrs, parse_lp_packet, Component
@@ -50,6 +50,7 @@ class NDNApp:
     data_validator: Validator = None
     _autoreg_routes: list[tuple[FormalName, Route, Validator | None, bool, bool]]
     _prefix_register_semaphore: aio.Semaphore = None
+    _last_command_timestamp: int = 0
     logger: logging.Logger
 
     def __init__(self, face=None, keychain=None):
@@ -438,9 +439,10 @@ class NDNApp:
 
         # Fix the issue that NFD only allows one packet signed by a specific key for a timestamp number
         async with self._prefix_register_semaphore:
+            now = await self._next_command_timestamp()
             try:
                 _, _, reply = await self.express_interest(
-                    name=make_command('rib', 'register', self.face, name=name),
+                    name=make_command('rib', 'register', self.face, command_timestamp=now, name=name),
                     lifetime=1000)
                 ret = parse_response(reply)
                 if ret['status_code'] != 200:
@@ -458,6 +460,14 @@ class NDNApp:
                 self.logger.error('Registration for %s failed: malformed response', Name.to_str(name))
                 return False
 
+    async def _next_command_timestamp(self) -> int:
+        # NFD only accepts a command whose timestamp is greater than that of the previous command.
+        # Must be called with the semaphore held.
+        while (now := timestamp()) <= self._last_command_timestamp:
+            await aio.sleep(0.001)
+        self._last_command_timestamp = now
+        return now
+
     async def unregister(self, name: NonStrictName) -> bool:
         """
         Unregister a route for a specific prefix.
@@ -474,9 +484,10 @@ class NDNApp:
 
         # Commands are sent one at a time, see register()
         async with self._prefix_register_semaphore:
+            now = await self._next_command_timestamp()
             try:
                 _, _, reply = await self.express_interest(
-                    make_command('rib', 'unregister', self.face, name=name), lifetime=1000)
+                    make_command('rib', 'unregister', self.face, command_timestamp=now, name=name), lifetime=1000)
                 ret = parse_response(reply)
                 if ret['status_code'] != 200:
                     self.logger.error('Unregistration for %s failed: %s %s',
